@@ -118,7 +118,12 @@ func genModeOp(u universe, m *mTracker, c string, uniq *int, choose func(int) in
 	n := 1 + choose(5)
 	for i := 0; i < n; i++ {
 		last := i == n-1
-		switch choose(6) {
+		switch choose(7) {
+		case 6:
+			sign(choose(2) == 0)
+			modes.WriteByte("beI"[choose(3)])
+			*uniq++
+			args = append(args, fmt.Sprintf("mask%d!*@*", *uniq))
 		case 0, 1:
 			sign(choose(3) != 0)
 			modes.WriteByte("imnprstzZO"[choose(10)])
